@@ -588,6 +588,33 @@ def run(facts, cg):
                 if vty.get('k') not in ('uint', 'int'):
                     continue
                 n_ins += 1
+                # the table is written for a chunk that is not in it yet, and only then: HashMap::insert overwrites - used as
+                # "get or insert" it re-points the hash of a repeated chunk at the index the next new chunk will get
+                if q.endswith('HashMap::insert'):
+                    cdom = c.dominators()
+                    mbase = c.base_of(t['args'][0])
+                    absent = False
+                    for cbi2, ct2 in c.calls():
+                        if 'q' not in ct2['callee'] or ct2['t'] is None or not ct2['args'] or not callee_q(ct2).endswith(('HashMap::contains_key', 'HashMap::get')):
+                            continue
+                        b2 = c.base_of(ct2['args'][0])
+                        if not (b2 and mbase and b2[0] == mbase[0] and [x[1] for x in b2[1]] == [x[1] for x in mbase[1]]):
+                            continue
+                        if callee_q(ct2).endswith('contains_key'):
+                            sw2 = c.blocks[ct2['t']]['term']
+                            if sw2['k'] == 'switch':
+                                f_t = dict(zip(sw2['vals'], sw2['targets'])).get(0)
+                                if f_t is not None and (f_t in cdom.get(bi, ()) or f_t == bi):
+                                    absent = True
+                        else:
+                            from .r_misc import _variant_edges
+                            for sbi2, tg2 in _variant_edges(c, ct2['dest']['l'], 0):
+                                if tg2 in cdom.get(bi, ()) or tg2 == bi:
+                                    absent = True
+                    instances.append({'rule': 'R-DICT-WIRING(dedup-insert)', 'function': c.q, 'at': t['loc'], 'behind_absence_test': absent})
+                    if not absent:
+                        finding(facts.bodies[pid].q, 'dedup-insert-unguarded', 'the de-duplication table is written at %s for a chunk that may already be in it: insert() '
+                                'overwrites, so the entry of a repeated chunk is re-pointed at an index that belongs to another chunk' % t['loc'])
                 term = simplify(T.of_operand(c, val))
                 ok = False
                 why = show(term)[:80]
